@@ -27,7 +27,7 @@ import impl
 import specnorm
 
 ID = 'C03'
-EXTRA_MODULES = ['Mistletoe.Proofs.Compose', 'Mistletoe.Proofs.ComposeLists2', 'propsdriver']
+EXTRA_MODULES = ['Mistletoe.Proofs.Compose', 'Mistletoe.Proofs.ComposeLists2', 'Mistletoe.Proofs.ComposeCode', 'propsdriver']
 RULE = ('trees of up to depth 4 / ~40 blocks (paragraphs, ATX and setext headings, thematic breaks, fenced and indented code, '
         'block quotes, tight and loose bullet/ordered lists, tables, HTML blocks, link definitions; emphasis, strong, '
         'strikethrough, code spans, inline/reference links, images, autolinks, hard and soft breaks, escapes, character '
@@ -38,11 +38,12 @@ RULE = ('trees of up to depth 4 / ~40 blocks (paragraphs, ATX and setext heading
 TRUSTED = ['harness/gen_tree.py (writer and expected-HTML writer) and harness/specnorm.py are the oracle, written from the specification']
 ASSUMPTIONS = ['spellings are restricted to those for which the specification unambiguously denotes the tree (the writer\'s '
                'admissibility rules)']
-PARTIAL = ['proved for the fragment paragraphs / ATX headings / thematic breaks / nested block quotes with inert text (see the '
-           'module docstring); every other construct of the property (setext headings, code blocks, lists, tables, HTML blocks, '
-           'link definitions, emphasis, strong, strikethrough, code spans, links, images, autolinks, hard breaks, escapes, '
-           'character references, raw HTML) and the free spellings outside the fragment are decided by exploration with the tree '
-           'generator and its independent oracle']
+PARTIAL = ['proved for the fragment paragraphs / ATX headings / thematic breaks / nested block quotes with inert text, bullet and ordered '
+           'lists nested to any depth (Props/C03_Lists.lean), fenced code blocks (any info string and content, at top level, in quotes '
+           'and in list items) and setext headings (at top level and in list items; Props/C03_Code.lean); every other construct of the '
+           'property (indented code, tables, HTML blocks, link definitions, emphasis, strong, strikethrough, code spans, links, images, '
+           'autolinks, hard breaks, escapes, character references, raw HTML) and the free spellings outside the fragment (list marker '
+           'indentation, lazy lines, omitted blank lines, tabs) are decided by exploration with the tree generator and its independent oracle']
 
 
 def opts(seed=0):
@@ -212,7 +213,98 @@ def _depth2(t):
     return 1
 
 
+def frag_tree3(rng, depth, in_quote=False):
+    """a tree of the fragment with fenced code blocks and setext headings (Props/C03_Code.lean)"""
+    r = rng.random()
+    if r < 0.22:
+        ch = rng.choice('`~')
+        n = rng.randint(3, 5)
+        f = ch * n
+        other = '~' if ch == '`' else '`'
+        ind = rng.choice([0, 0, 0, 1, 2, 3])
+        info = rng.choice(['', '', 'py', ' sh x=1', 'c++ \\* &amp;', ' a b ']) if ch == '`' else rng.choice(['', 'py', ' a`b ~x', 'r &copy;'])
+        pool = ['x = 1', '', '  indented', '# not a heading', '> not a quote', '- not a list', '*a*', '    four', 'ü', '<b>&',
+                f + 'abc', f + ' x', ch * (n - 1), other * n, f + other * 3, ch * (n + 1) + '.', '---', '1. x']
+        body = [rng.choice(pool) for _ in range(rng.randint(0, 4))]
+        pad = ' ' * rng.choice([0, ind, ind, ind + 2])
+        return {'k': 'fence', 'ind': ind, 'delim': f, 'info': info, 'body': [((pad + l) if l else '') + '\n' for l in body],
+                'close': ' ' * rng.choice([0, 0, ind, 3]) + ch * rng.choice([n, n, n + 1, n + 3]) + ' ' * rng.choice([0, 0, 2]) + '\n'}
+    if r < 0.36 and not in_quote:
+        lv = rng.choice([1, 2])
+        return {'k': 'setext', 'level': lv, 'lines': [frag_line(rng) + '\n' for _ in range(rng.randint(1, 2))],
+                'ul': ' ' * rng.choice([0, 0, 1, 3]) + ('=' if lv == 1 else '-') * rng.choice([1, 2, 3, 5, 9]) + ' ' * rng.choice([0, 0, 2]) + '\n'}
+    if r < 0.55 or depth >= 3:
+        return {'k': 'para', 'lines': [frag_line(rng) + '\n' for _ in range(rng.randint(1, 3))]}
+    if r < 0.62:
+        lv = rng.randint(1, 6)
+        text = frag_line(rng)
+        return {'k': 'heading', 'level': lv, 'text': text, 'line': '#' * lv + ' ' + text + rng.choice(['', '', ' #']) + '\n'}
+    if r < 0.67:
+        return {'k': 'hr', 'line': rng.choice(['***', '___', '* * *', '_____']) + '\n'}
+    if r < 0.76:
+        return {'k': 'quote', 'bare': False, 'kids': siblings3(rng, depth + 1, in_quote=True)}
+    ordered = rng.random() < 0.4
+    loose = rng.random() < 0.5
+    n = rng.randint(1, 3)
+    if loose:
+        items = [siblings3(rng, depth + 1, first_para=rng.random() < 0.6, in_quote=in_quote) for _ in range(n)]
+        if n == 1 and len(items[0]) == 1:
+            items[0].append({'k': 'para', 'lines': [frag_line(rng) + '\n']})
+    else:
+        items = [[frag_tree3(rng, 9, in_quote) if rng.random() < 0.3 else {'k': 'para', 'lines': [frag_line(rng) + '\n' for _ in range(rng.randint(1, 2))]}]
+                 for _ in range(n)]
+    return {'k': 'list', 'ordered': ordered, 'start': rng.choice([1, 1, 2, 7, 10, 0, 999999990]) if ordered else 0,
+            'marker': rng.choice('.)') if ordered else rng.choice('-+*'), 'pad': rng.randint(1, 4), 'loose': loose, 'items': items}
+
+
+def siblings3(rng, depth, first_para=False, in_quote=False):
+    out = []
+    for i in range(rng.randint(1, 3)):
+        t = frag_tree3(rng, depth, in_quote)
+        if (i == 0 and first_para) or (out and out[-1]['k'] == 'list' and t['k'] == 'list'):
+            t = {'k': 'para', 'lines': [frag_line(rng) + '\n']}
+        out.append(t)
+    return out
+
+
+def _has(t, kind):
+    if t['k'] == kind:
+        return True
+    if t['k'] == 'quote':
+        return any(_has(k, kind) for k in t['kids'])
+    if t['k'] == 'list':
+        return any(_has(k, kind) for it in t['items'] for k in it)
+    return False
+
+
+def theorem_unit_code(ctx):
+    """`C03_code_html_partial` on the real renderer: forests with fenced code blocks and setext headings"""
+    rng3 = ctx.rng('fragment3')
+    forests3 = [siblings3(rng3, 0) for _ in range(ctx.budget(2500, 25000))]
+    opts3 = [{}, {'html_escape_double_quotes': True}, {'html_escape_single_quotes': True}]
+    res3 = common.driver_batch([{'op': 'c03.fragment3', 'forest': f, 'dq': bool(opts3[i % 3].get('html_escape_double_quotes')),
+                                 'sq': bool(opts3[i % 3].get('html_escape_single_quotes'))} for i, f in enumerate(forests3)],
+                               binary=common.PROPS_DRIVER)
+    n_ok = n_f = n_s = 0
+    for i, (f, r) in enumerate(zip(forests3, res3)):
+        if not (isinstance(r, dict) and r.get('ok')):
+            continue
+        n_ok += 1
+        hf, hs = any(_has(t, 'fence') for t in f), any(_has(t, 'setext') for t in f)
+        n_f += hf
+        n_s += hs
+        try:
+            real = impl.parse_render('HtmlRenderer', opts3[i % 3], r['text'])[1]
+        except Exception as e:
+            real = {'raises': type(e).__name__}
+        ctx.compare('c03.theorem.code', {'text': r['text'], 'options': opts3[i % 3]}, r['html'], real,
+                    kind=('fence' if hf else '') + ('+setext' if hs else '') or 'neither')
+    ctx.notes.append('of %d generated forests with code blocks / setext headings %d satisfy the hypothesis T3.oks (%d with a fenced block, %d with a '
+                     'setext heading)' % (len(forests3), n_ok, n_f, n_s))
+
+
 def units(ctx):
+    theorem_unit_code(ctx)
     rng2 = ctx.rng('fragment2')
     forests2 = [siblings2(rng2, 0) for _ in range(ctx.budget(2500, 25000))]
     opts2 = [{}, {'html_escape_double_quotes': True}, {'html_escape_single_quotes': True}]
